@@ -4,6 +4,7 @@ import (
 	"encoding/json"
 	"errors"
 	"fmt"
+	"net/url"
 	"os"
 	"sort"
 	"strconv"
@@ -39,6 +40,11 @@ var c10CDPSets = [][]string{
 	// location strings shorter than any scheme name the loader factory knows
 	{"x:1"},
 	{"a:", "http://crl.test/a.crl"},
+	// locations which begin like an http URL and cannot be parsed as one (an unexpanded placeholder, a port which is no
+	// number), alone and next to a reachable one: the validator cannot use such a set at all (it never gets a store),
+	// so no CRL for it is ever in force
+	{"http://%ca_name%.crl.test/x.crl"},
+	{"http://crl.test:80a/x.crl", "http://crl.test/a.crl"},
 }
 
 func (c c10Cfg) String() string {
@@ -52,6 +58,13 @@ func (c c10Cfg) String() string {
 
 func c10HTTPURLs(set []string) []string {
 	var u []string
+	for _, s := range set {
+		if strings.HasPrefix(strings.ToLower(s), "http") {
+			if _, err := url.Parse(s); err != nil {
+				return nil // the whole set is unusable
+			}
+		}
+	}
 	for _, s := range set {
 		if strings.HasPrefix(strings.ToLower(s), "http") {
 			u = append(u, s)
